@@ -20,6 +20,20 @@ def _all_const(args):
     return all(is_const(a) for a in args)
 
 
+def _integer_valued(v):
+    """Integer constants, symbols tagged `int`, lengths / counts, and integer polynomials of those."""
+    if isinstance(v, Const):
+        return isinstance(v.value, int) and not isinstance(v.value, bool)
+    if isinstance(v, Sym):
+        return "int" in v.tags
+    if isinstance(v, App):
+        return v.fn in ("len", "count_lt", "count_le", "floor", "ceil", "trunc", "size", "ndim")
+    p = to_poly(v)
+    if p is None:
+        return False
+    return all(Fraction(c).denominator == 1 and all(e > 0 and _integer_valued(a) for a, e in m) for m, c in p.t.items())
+
+
 def _perm_arg(p):
     """X for p = argsort(X, ...) (a permutation of range(size(X)))."""
     if isinstance(p, App) and p.fn == "argsort" and p.args:
@@ -141,6 +155,8 @@ def mk_app(fn, args=(), kw=()):
             return Const(math.floor(c) if fn == "floor" else math.ceil(c))
         if isinstance(a, App) and a.fn in ("floor", "ceil", "len", "count_lt", "count_le"):
             return a
+    if fn == "mod" and len(args) == 2 and args[1] == Const(1) and _integer_valued(args[0]):
+        return Const(0)          # n % 1 for an integer-valued n
     if fn == "abs" and len(args) == 1 and is_const(args[0]):
         return Const(abs(Fraction(const_of(args[0]))))
     if fn == "ppf" and len(args) == 1:
